@@ -1532,3 +1532,52 @@ def literal_forms(tree: ast.Module) -> int:
     if t.count:
         ast.fix_missing_locations(tree)
     return t.count
+
+
+# ---------------------------------------------------------------- module-level literal tables
+def fold_module_tables(tree: ast.Module) -> int:
+    """`TABLE['key']` where TABLE is a module-level name bound once to a dict display with
+    constant keys and simple values (names, attributes, constants), never mutated or rebound
+    in the module: read as the value itself (a dispatch table spelt out)."""
+    tables: Dict[str, ast.Dict] = {}
+    stores: Dict[str, int] = {}
+    for n in ast.walk(tree):
+        if isinstance(n, ast.Name) and isinstance(n.ctx, (ast.Store, ast.Del)):
+            stores[n.id] = stores.get(n.id, 0) + 1
+    for st in tree.body:
+        if isinstance(st, ast.Assign) and len(st.targets) == 1 and isinstance(st.targets[0], ast.Name) and isinstance(st.value, ast.Dict):
+            d = st.value
+            if d.keys and all(isinstance(k, ast.Constant) for k in d.keys) and all(_simple(v) for v in d.values) and stores.get(st.targets[0].id) == 1:
+                tables[st.targets[0].id] = d
+    if not tables:
+        return 0
+    # mutated tables are left alone
+    for n in ast.walk(tree):
+        if isinstance(n, ast.Subscript) and isinstance(n.ctx, (ast.Store, ast.Del)) and isinstance(n.value, ast.Name):
+            tables.pop(n.value.id, None)
+        if isinstance(n, ast.Attribute) and isinstance(n.value, ast.Name) and n.attr in ("update", "pop", "clear", "setdefault", "popitem", "__setitem__"):
+            tables.pop(n.value.id, None)
+        if isinstance(n, (ast.Global, ast.Nonlocal)):
+            for nm in n.names:
+                tables.pop(nm, None)
+    if not tables:
+        return 0
+
+    class _Fold(ast.NodeTransformer):
+        count = 0
+
+        def visit_Subscript(self, node):
+            self.generic_visit(node)
+            if isinstance(node.ctx, ast.Load) and isinstance(node.value, ast.Name) and node.value.id in tables and isinstance(node.slice, ast.Constant):
+                d = tables[node.value.id]
+                for k, v in zip(d.keys, d.values):
+                    if k.value == node.slice.value and type(k.value) is type(node.slice.value):
+                        _Fold.count += 1
+                        return ast.copy_location(clone_ast(v), node)
+            return node
+
+    _Fold.count = 0
+    _Fold().visit(tree)
+    if _Fold.count:
+        ast.fix_missing_locations(tree)
+    return _Fold.count
